@@ -104,6 +104,7 @@ func c02(c *Ctx) {
 				default:
 					c.R.OK(site(a)+" guarded", c.pos(a.Pos()), cfgx.ShortCallee(cfgx.CalleeName(g))+"(owner.GetUID()), owner: "+cfgx.ShortCallee(uidOf.Type().String()))
 				}
+				c.noWriteBeforeGuard(a, g)
 			}
 		}
 	}
